@@ -65,6 +65,18 @@ Section Sound.
   Lemma off_nil e a : off [] e a.
   Proof. intros g []. Qed.
 
+  Lemma passes_exit_sound ia t (e : env) a :
+    passes_exit ia t = true -> e_ann A e = ia -> e_state_exit A e a = true ->
+    memn (key a) (e_targets A e) = true -> ev t e a = true.
+  Proof.
+    intros H Ea M Tg. induction t; simpl in *; try discriminate.
+    - apply orb_true_iff in H. apply orb_true_iff. destruct H; auto.
+    - apply andb_true_iff in H. destruct H as [H1 H2]. rewrite (IHt1 H1). simpl.
+      rewrite (only_fields_off _ _ _ _ H2 (off_nil e a)). reflexivity.
+    - destruct t1; try discriminate; destruct t2; try discriminate; simpl; rewrite M, Tg; reflexivity.
+    - rewrite Ea. destruct ia; auto.
+  Qed.
+
   Lemma covg_sound ia t (e : env) a :
     covg ia t = true -> e_ann A e = ia -> e_genmap A e a = true -> ev t e a = true.
   Proof.
